@@ -24,4 +24,5 @@ let () = main_loop (function
   | "scgi" :: toks -> show (scgi_run (List.concat (segs toks)))
   | "fcgi" :: toks -> show (fcgi_run (List.concat (segs toks)))
   | ["atoll"; h] -> string_of_int (int_of_z (atoll (bytes_of_hex h)))
+  | ["scgiclass"; h] -> if scgi_unterminated_class (bytes_of_hex h) then "1" else "0"
   | _ -> "BAD-CASE")
